@@ -865,7 +865,10 @@ class Document:
         """
         Relative position for the last non blank character of this line.
         """
-        return len(self.current_line.rstrip()) - self.cursor_position_col - 1
+        # (For a blank line, stay at the start of the line; never leave it.)
+        return (
+            max(0, len(self.current_line.rstrip()) - 1) - self.cursor_position_col
+        )
 
     def get_column_cursor_position(self, column: int) -> int:
         """
